@@ -231,9 +231,16 @@ def check_binop(mod, R, cname, name, fn):
             # gives 0 (exact: (a << n) mod 2^size == 0 for n >= size) without building the shifted integer
             cls_txt = u(ret.func)
             good_guard = (opname == 'lshift' and len(others) == 1 and isinstance(others[0][0], ast.Compare) and len(others[0][0].ops) == 1
-                          and isinstance(others[0][0].ops[0], ast.GtE) and u(others[0][0].left) == want_r and u(others[0][0].comparators[0]) == cls_txt + '.size')
+                          and isinstance(others[0][0].ops[0], ast.GtE) and u(others[0][0].left) == want_r
+                          and u(others[0][0].comparators[0]) in ('self.__class__.size', 'self.maxcast(%s).size' % y, cls_txt + '.size'))
             if not good_guard:
                 raise AnalysisError('%s has an unmodelled branch structure: %s' % (key, [u(t) for t, _ in others]))
+            gcls = u(others[0][0].comparators[0])[:-len('.size')]
+            if gcls != cls_txt and not gcls.startswith('self.maxcast('):
+                # bound taken from a class that may be narrower than the result class: counts between the two widths give 0 wrongly
+                R.violation(inst, key + ':bound-class:' + gcls, '%s compares the count with %s.size but returns a %s: for a count between the two widths the result is not 0'
+                            % (name, gcls, cls_txt), where(mod, fn), witness='uint8(1) << uint16(9)')
+                continue
             if others[0][1]:
                 if isinstance(e, ast.Constant) and e.value == 0:
                     if (ymod and wrap == 'max:' + y) or (not ymod and wrap == 'self'):
